@@ -26,6 +26,9 @@ type Env interface {
 	LibCall(handle interface{}) (result interface{}, panicVal interface{}, stack string)
 	// LibValue returns the *model.DecisionMaker behind a handle (for Deep).
 	LibValue(handle interface{}) interface{}
+	// Echo binds body like the handler does and renders the bound value again:
+	// what a 400 must echo as `request`.
+	Echo(body []byte) ([]byte, error)
 	// MarshalResult renders a library result like the HTTP handler would.
 	MarshalResult(result interface{}) ([]byte, error)
 }
